@@ -494,7 +494,7 @@ def u16_filler(nunits, salt=0):
 def generate(seed, tier):
     r = rng(seed, FAMILY)
     quick = tier == "quick"
-    reps = 1 if quick else 10
+    reps = 1 if quick else 6
 
     def setup():
         return r.choice("sf")
@@ -680,9 +680,10 @@ def generate(seed, tier):
     # ---- 6. random texts
     pieces8 = [CH[1], CH[1], CH[2], CH[3], CH[4], "\ufffd".encode(), "\ufeff".encode(), b"\n", b"*", "\ud7ff".encode(), "\U0010FFFF".encode(),
                "\U00010000".encode(), b"\x00", b"\x7f", "\u0080".encode(), "\u07ff".encode(), "\u0800".encode(), "\uffff".encode()]
-    for _ in range(260 if quick else 4000):
+    for _ in range(260 if quick else 3600):
         enc = r.choice(["utf8", "utf8", "utf8", "utf16le", "utf16be"])
-        target = r.choice([r.randint(0, 40), r.randint(0, 300), r.randint(3900, 4300), r.randint(8000, 8400), r.randint(0, 9000), r.randint(4000, 9000)])
+        target = r.choice([r.randint(0, 40), r.randint(0, 300), r.randint(3900, 4300), r.randint(8000, 8400), r.randint(0, 9000), r.randint(4000, 9000)]
+                          + ([] if quick else [r.randint(0, 40), r.randint(0, 300), r.randint(0, 300), r.randint(0, 2000)]))
         pbad = r.choice([0.0, 0.0, 0.002, 0.02, 0.3])
         out = bytearray()
         if enc == "utf8":
